@@ -11,12 +11,12 @@ EXE = 'drv_c01'
 THEOREMS = [
     'NSV.C01.qstep_exact_nearest', 'NSV.C01.qstep_exact_tie_up', 'NSV.C01.qstep_exact_unique',
     'NSV.C01.qstep_mono', 'NSV.C01.qstep_stretch_invariant',
-    'NSV.C01.qNotes_min_len', 'NSV.C01.qNotes_total_covers', 'NSV.C01.qNotes_nonneg',
-    'NSV.C01.qNotes_frame', 'NSV.C01.quantizeNotes_frame', 'NSV.C01.quantizeRel_frame', 'NSV.C01.quantizeAbs_frame',
-    'NSV.C01.quantizeNotes_negative_iff',
-    'NSV.C01.checkTimeSigs_perm', 'NSV.C01.checkTempos_perm',
-    'NSV.C01.checkTimeSigs_rejects_change', 'NSV.C01.checkTempos_rejects_change',
-    'NSV.C01.quantizeRel_bad_time_signature',
+    'NSV.C01.quantize_min_len', 'NSV.C01.quantize_total_covers', 'NSV.C01.quantize_nonneg',
+    'NSV.C01.quantizeNotes_negative_iff', 'NSV.C01.quantizeNotes_frame', 'NSV.C01.quantizeAbs_frame',
+    'NSV.C01.quantizeRel_rejects_time_signature_change', 'NSV.C01.quantizeRel_bad_time_signature',
+    'NSV.C01.isPow2_iff', 'NSV.C01.quantizeRel_rejects_tempo_change', 'NSV.C01.quantizeRel_accepts',
+    'NSV.C01.quantizeRel_frame', 'NSV.C01.checkTimeSigs_perm', 'NSV.C01.checkTempos_perm',
+    'NSV.C01.qNotes_spec', 'NSV.C01.quantizeNotes_spec', 'NSV.C01.checkTimeSigs_spec', 'NSV.C01.checkTempos_spec',
 ]
 
 
